@@ -88,14 +88,17 @@ func init() {
 	registerMapAppendFunc(tI64, tMAP, appendMap_I64_Other)
 	registerMapAppendFunc(tI64, tSET, appendMap_I64_Other)
 	registerMapAppendFunc(tI64, tLIST, appendMap_I64_Other)
-	registerMapAppendFunc(tDOUBLE, tBOOL, appendMap_I64_BOOL)
-	registerMapAppendFunc(tDOUBLE, tBYTE, appendMap_I64_I08)
-	registerMapAppendFunc(tDOUBLE, tI16, appendMap_I64_I16)
-	registerMapAppendFunc(tDOUBLE, tI32, appendMap_I64_I32)
-	registerMapAppendFunc(tDOUBLE, tI64, appendMap_I64_I64)
-	registerMapAppendFunc(tDOUBLE, tDOUBLE, appendMap_I64_I64)
-	registerMapAppendFunc(tDOUBLE, tENUM, appendMap_I64_ENUM)
-	registerMapAppendFunc(tDOUBLE, tSTRING, appendMap_I64_STRING)
+	// float64 keys must not be ranged over as map[uint64]V: the runtime would
+	// iterate with the uint64 hasher and, while the map is growing, visit
+	// entries of the old buckets twice or not at all. Use the iterator paths.
+	registerMapAppendFunc(tDOUBLE, tBOOL, appendMap_Other_BOOL)
+	registerMapAppendFunc(tDOUBLE, tBYTE, appendMap_Other_I08)
+	registerMapAppendFunc(tDOUBLE, tI16, appendMap_Other_I16)
+	registerMapAppendFunc(tDOUBLE, tI32, appendMap_Other_I32)
+	registerMapAppendFunc(tDOUBLE, tI64, appendMap_Other_I64)
+	registerMapAppendFunc(tDOUBLE, tDOUBLE, appendMap_Other_I64)
+	registerMapAppendFunc(tDOUBLE, tENUM, appendMap_Other_ENUM)
+	registerMapAppendFunc(tDOUBLE, tSTRING, appendMap_Other_STRING)
 	registerMapAppendFunc(tDOUBLE, tSTRUCT, appendMap_I64_Other)
 	registerMapAppendFunc(tDOUBLE, tMAP, appendMap_I64_Other)
 	registerMapAppendFunc(tDOUBLE, tSET, appendMap_I64_Other)
